@@ -6,7 +6,7 @@ DST = "deterministic simulation with fault injection: "
 
 CHECKS = {
     "C01": dict(
-        text="Seeded search over call sequences x handler scripts x segmentations x interleavings of N connections against a sequential reference model of one connection; a clean batch is evidence, not proof.",
+        text="Seeded search over call sequences x handler scripts x segmentations x interleavings of N connections against a sequential reference model of one connection; a clean batch is evidence, not proof. Variants: a handler that blocks until the rest of the world is quiet (independence of connections), a service with an idle timeout whose accept deadline expires several times while an anchor connection is open and other clients connect in between.",
         technique=DST + "seeded scheduler + simulated stream transport, per-connection sequential reference model",
         ref="DESIGN.md §4 C01"),
     "C04": dict(
@@ -14,7 +14,7 @@ CHECKS = {
         technique=DST + "seeded workload over the simulated transport, routing reference model + dispatch-log oracle",
         ref="DESIGN.md §4 C04"),
     "C10": dict(
-        text="Seeded hostile byte streams (mutations, wrong shapes, random bytes) with close/reset at drawn byte offsets and phases, a probe connection, then Shutdown or idle timeout; oracle: model answers for complete well-formed frames, nothing dispatched otherwise, no panic, no task left at quiescence, serving drains.",
+        text="Seeded hostile byte streams (mutations, wrong shapes, random bytes) with close/reset at drawn byte offsets and phases, a probe connection, then Shutdown or idle timeout; oracle: model answers for complete well-formed frames, nothing dispatched otherwise, no panic, no task left at quiescence, serving drains; a run that spins without progress up to the step cap is a livelock. One run in sixteen: a hostile peer is still connected when the service is shut down and vanishes afterwards; the next serving round of the same service, with an idle timeout and no visitor, must stop by itself.",
         technique=DST + "peer abort/close at arbitrary byte offsets, back-pressure, quiescence-based liveness oracle",
         ref="DESIGN.md §4 C10"),
     "C14": dict(
@@ -45,7 +45,7 @@ CHECKS = {
         note="Trusted: simulated namespace (EADDRINUSE / ECONNREFUSED / unknown-network behaviour of net.Listen), testing/synctest. Not covered by this leg: os.Remove of stale sockets, SetUnlinkOnClose, the *net.UnixListener assertion and NewConnection's net.Dialer (real-kernel objects without a seam).",
         ref="DESIGN.md §4 C19"),
     "C02": dict(
-        text="Real Connection clients and a real Service exchange generated JSON (strings with NUL, quotes, control and non-BMP characters, nesting to depth 200, frames larger than bufio's buffer and the pipe capacity; up to MiB in the thorough tier) over the simulated stream and over the real PipeCon on simulated stdio pipes, under per-run segmentation / coalescing / short-read / latency / tiny-capacity policies. Oracle: both wire taps cut at NUL are non-empty JSON objects, the stream ends with NUL, message counts equal the model's, and what each side decodes equals what the other sent whatever the segmentation (C01/C10 add raw byte-at-a-time client streams against the same model).",
+        text="Real Connection clients and a real Service exchange generated JSON (strings with NUL, quotes, control and non-BMP characters, nesting to depth 200, frames larger than bufio's buffer and the pipe capacity; up to MiB in the thorough tier) over the simulated stream and over the real PipeCon on simulated stdio pipes, under per-run segmentation / coalescing / short-read / latency / tiny-capacity policies. Oracle: both wire taps cut at NUL are non-empty JSON objects, the stream ends with NUL, message counts equal the model's, and what each side decodes equals what the other sent whatever the segmentation (C01/C10 add raw byte-at-a-time client streams against the same model). Variants: Shutdown in the middle of the traffic, a service with an idle timeout whose accept deadline expires while connections are open, and (one run in 1500) a bulk scenario of 20-60 MiB per direction on one connection.",
         technique=DST + "wire tap of the simulated transport + adversarial segmentation, framing oracle on both directions",
         ref="DESIGN.md §4 C02"),
     "C03": dict(
